@@ -9,7 +9,7 @@ Both work by farming out the individual objects to other graders.
 """
 
 import numpy as np
-from voluptuous import Required, Any, Schema
+from voluptuous import Required, Any, Schema, All, Length
 from mitxgraders.helpers import munkres
 from mitxgraders.baseclasses import AbstractGrader, ItemGrader
 from mitxgraders.exceptions import ConfigError, MissingInput
@@ -645,7 +645,7 @@ class SingleListGrader(ItemGrader):
             Required('ordered', default=False): bool,
             Required('length_error', default=False): bool,
             Required('missing_error', default=True): bool,
-            Required('delimiter', default=','): str,
+            Required('delimiter', default=','): All(str, Length(min=1)),
             Required('partial_credit', default=True): bool,
             Required('subgrader'): ItemGrader
         })
